@@ -141,7 +141,9 @@ var props = map[string]propSpec{
 		{Name: "bbox", NoRewrite: true, Quick: 240, Thorough: 2400, Args: []string{"-prop", "C02"}},
 		{Name: "agentw", Quick: 60, Thorough: 600, Args: []string{"-prop", "C02"}},
 		{Name: "joined", Quick: 90, Thorough: 900, Args: []string{"-prop", "C02"}},
+		{Name: "appw", Quick: 60, Thorough: 300, Args: []string{"-prop", "C19", "-report", "C02", "-scn", "c19/s"}},
 	}, Assume: []string{
+		"the App Engine variant of the proxy stores requests as blobs split into parts: its store round trips (all orders of the concurrent part writes) and request sizes around the part limits run under this property too (harness appw)",
 		"although schedules are not in this property's quantifier, requests with bodies are also sent concurrently through the agent program (harness agentw) and through proxy + agent joined in one process (harness joined) under delay-bounded schedules: the backend must see each request's own method, target and body",
 		"the real proxy and agent binaries built from the current tree, as processes on loopback; credentials from a fake metadata server; the backend is a strict raw-socket HTTP/1.1 server that records what it receives",
 		"hop-by-hop = the fixed RFC 7230 table (Connection, Keep-Alive, Proxy-Authenticate, Proxy-Authorization, TE, Trailer, Transfer-Encoding, Upgrade); fields merely nominated by the client's Connection header are not judged; OPTIONS * is answered by net/http before any handler and is not a request through the proxy",
